@@ -131,6 +131,30 @@ func bufDecode(setter string, in []byte, r *bufRecv) ([]byte, error) {
 	panic("bad setter")
 }
 
+func bufWrongLengths(in []byte) [][]byte {
+	n := len(in)
+	out := [][]byte{
+		append(append([]byte{}, in...), 0),
+		append(append([]byte{}, in...), 0xff),
+		append(append([]byte{}, in...), in...),
+		append([]byte{}, in[:n-1]...),
+		append([]byte{}, in[:n/2]...),
+	}
+	t := n
+	for t > 0 && in[t-1] == 0 {
+		t--
+	}
+	if t < n {
+		out = append(out, append([]byte{}, in[:t]...))
+	}
+	if n == 64 {
+		out = append(out, append([]byte{}, in[:32]...))
+	} else {
+		out = append(out, append(append([]byte{}, in...), make([]byte, 32)...))
+	}
+	return out
+}
+
 var subC19Buf = core.NewSub("C19/buffer-reuse", func(w *core.Worker, c bufCase) *core.Fail {
 	in0, _ := bufValue(c.Setter, 0)
 	buf := make([]byte, len(in0), len(in0)+c.Cap)
@@ -153,6 +177,14 @@ var subC19Buf = core.NewSub("C19/buffer-reuse", func(w *core.Worker, c bufCase) 
 			}
 			if !bytes.Equal(buf, in) {
 				return core.Failf("%s modified its input buffer", c.Setter)
+			}
+			// wrong-length relatives of the value just decoded (longer, zero-padded, truncated - also by
+			// exactly its trailing zero bytes) must still be rejected: a tree that remembers decoded
+			// inputs must not recognise them by a prefix
+			for vi, bad := range bufWrongLengths(in) {
+				if g, err := bufDecode(c.Setter, bad, nil); err == nil {
+					return core.Failf("%s accepted a %d-byte input (variant %d of the %d-byte value %x decoded just before) and produced %x", c.Setter, len(bad), vi, len(in), in, g)
+				}
 			}
 			// the previous value, from a fresh slice, after the shared buffer moved on
 			if n > 0 {
@@ -239,6 +271,20 @@ func thrashPoints(n, offset int) ([]*edwards25519.Point, []ref.Pt) {
 	return ps, ms
 }
 
+// thrashInvalidEncoding: the i-th 32-byte string y (small, then spread) that is not the y of a curve point.
+func thrashInvalidEncoding(i int) []byte {
+	found := -1
+	for y := int64(2); ; y++ {
+		b := ref.LE32(new(big.Int).Add(big.NewInt(y), new(big.Int).Lsh(big.NewInt(int64(i%7)), uint(8*(i%29)))))
+		if _, ok := ref.Decode(b[:]); !ok {
+			found++
+			if found == i {
+				return b[:]
+			}
+		}
+	}
+}
+
 var subC19Thrash = core.NewSub("C19/many-distinct-points", func(w *core.Worker, c thrashCase) *core.Fail {
 	ps, ms := thrashPoints(c.N, c.Offset)
 	kv := big.NewInt(9)
@@ -295,6 +341,12 @@ var subC19Thrash = core.NewSub("C19/many-distinct-points", func(w *core.Worker, 
 	wants := make([][]byte, len(ps))
 	for i := range ps {
 		if c.Routine == "SetBytes" {
+			// a rejected decode before every new point: what a tree remembers about rejected
+			// inputs must not leak into later valid ones
+			bad := thrashInvalidEncoding(i)
+			if _, err := new(edwards25519.Point).SetBytes(bad); err == nil {
+				return core.Failf("SetBytes accepted the off-curve encoding %x (step %d of a history of decodes)", bad, i)
+			}
 			wants[i] = enc(ms[i])
 			if got := confImpl(c.Routine, k, ps[i]); !bytes.Equal(got, wants[i]) {
 				return core.Failf("SetBytes(Bytes()) of point %d of a history of distinct points: %x want %x", i, got, wants[i])
